@@ -1189,6 +1189,14 @@ class KmipEngine(object):
         else:
             return False
 
+    def _describe_date(self, value):
+        try:
+            return time.asctime(time.gmtime(value))
+        except (OverflowError, OSError, ValueError):
+            # Dates outside the range the platform can render can still be
+            # compared; fall back to the raw number for the log message.
+            return str(value)
+
     def _is_valid_date(self, date_type, value, start, end):
         date_type = date_type.value.lower()
 
@@ -1199,9 +1207,9 @@ class KmipEngine(object):
                         "Failed match: object's {} ({}) is less than "
                         "the starting {} ({}).".format(
                             date_type,
-                            time.asctime(time.gmtime(value)),
+                            self._describe_date(value),
                             date_type,
-                            time.asctime(time.gmtime(start))
+                            self._describe_date(start)
                         )
                     )
                     return False
@@ -1210,9 +1218,9 @@ class KmipEngine(object):
                         "Failed match: object's {} ({}) is greater than "
                         "the ending {} ({}).".format(
                             date_type,
-                            time.asctime(time.gmtime(value)),
+                            self._describe_date(value),
                             date_type,
-                            time.asctime(time.gmtime(end))
+                            self._describe_date(end)
                         )
                     )
                     return False
@@ -1222,9 +1230,9 @@ class KmipEngine(object):
                         "Failed match: object's {} ({}) does not match "
                         "the specified {} ({}).".format(
                             date_type,
-                            time.asctime(time.gmtime(value)),
+                            self._describe_date(value),
                             date_type,
-                            time.asctime(time.gmtime(start))
+                            self._describe_date(start)
                         )
                     )
                     return False
